@@ -426,6 +426,52 @@ def run_fuzzq_case(p):
     return None
 
 
+def run_subquery_operand_case(p):
+    """C15: an attribute of a sub-query big = an(entity(x, c0)) used as a bare condition (big.flag) or as an operand of a
+    comparison (big.size == y.size), combined with another condition by and_ / or_ in either operand order: the operand is
+    restricted to the sub-query's solutions, i.e. the condition means (c0 and <the same with x>)"""
+    from entity_query_language import symbolic_mode, let, an, entity, set_of, and_, or_
+    O.reset_registry()
+    rng = random.Random(p['seed'])
+    d0 = O.make_domain(rng, 4, falsy=True)
+    d1 = O.make_domain(rng, 3)
+    c0 = ('cmp', rng.choice(['gt', 'ge', 'lt']), ('attr', 0, 'size'), ('lit', rng.choice([0, 1, 2])))
+    form = rng.choice(['bare', 'cmp'])
+    conn = rng.choice(['or', 'and'])
+    sub_first = rng.random() < 0.5
+    other1 = O.gen_cond(rng, 1, 1, falsy=True, vocab=('cmp', 'name'), neg=False)
+    other2 = ('cmp', rng.choice(['eq', 'le', 'ne']), ('attr', 0, 'size'), ('index', 1, 'k'))
+    op = rng.choice(['eq', 'le', 'ge', 'ne'])
+    try:
+        with symbolic_mode():
+            x = let(type_=O.Item, domain=d0)
+            y = let(type_=O.Item, domain=d1)
+            big = an(entity(x, O.build(c0, [x])))
+            if form == 'bare':
+                sub_c, oc = big.flag, O.build(other1, [x])
+                ref = lambda a, b: ((O.holds(c0, {0: a}) and bool(a.flag)), O.holds(other1, {0: a}))  # noqa
+            else:
+                sub_c, oc = O.OPS[op](big.size, y.size), O.build(other2, [x, y])
+                ref = lambda a, b: ((O.holds(c0, {0: a}) and O.OPS[op](a.size, b.size)), O.holds(other2, {0: a, 1: b}))  # noqa
+            f = or_ if conn == 'or' else and_
+            cond = f(sub_c, oc) if sub_first else f(oc, sub_c)
+            q = an(entity(x, cond)) if form == 'bare' else an(set_of((x, y), cond))
+        comb = (lambda u, v: u or v) if conn == 'or' else (lambda u, v: u and v)
+        if form == 'bare':
+            got = sorted(set(d0.index(r) for r in q.evaluate()))
+            want = [i for i, a in enumerate(d0) if comb(*ref(a, None))]
+        else:
+            got = sorted(set((d0.index(r[x]), d1.index(r[y])) for r in q.evaluate()))
+            want = sorted((i, j) for i, a in enumerate(d0) for j, b in enumerate(d1) if comb(*ref(a, b)))
+    except Exception as e:  # noqa
+        return {'form': form, 'exception': repr(e), 'trace': traceback.format_exc(limit=4), 'signature_kind': 'exception'}
+    if got != want:
+        kind = f"{form}:{conn}:{'sub-query-operand-first' if sub_first else 'sub-query-operand-second'}"
+        return {'form': form, 'connective': conn, 'sub_first': sub_first, 'c0': repr(c0), 'other': repr(other1 if form == 'bare' else other2),
+                'op': op, 'd0': repr(d0), 'd1': repr(d1), 'got': got, 'want': want, 'signature_kind': kind}
+    return None
+
+
 def run_the_nested_case(p):
     """C06 / C15: `the` used inside another query.  (a) correlated: the(entity(o, o.name == x.name)) over owners with
     distinct names has exactly one solution per x; its attribute is an operand of the enclosing description, so the
@@ -938,6 +984,8 @@ def _run_case(p):
         return run_flatten_case(p)
     if p.get('kind') == 'fuzzq':
         return run_fuzzq_case(p)
+    if p.get('kind') == 'subquery_operand':
+        return run_subquery_operand_case(p)
     if p.get('kind') == 'the_nested':
         return run_the_nested_case(p)
     if p.get('kind') == 'the':
